@@ -284,9 +284,18 @@ func (v *version) spawn(r *sessionRecord, trivial bool) *version {
 }
 
 func (v *version) fillRecord(r *sessionRecord) {
+	// Tables the record already adds (flushed by the journal replay in the very commit
+	// that creates the manifest) must not be listed twice: the record is also what
+	// setVersion turns into the reference-loop delta.
+	listed := make(map[int64]struct{}, len(r.addedTables))
+	for _, t := range r.addedTables {
+		listed[t.num] = struct{}{}
+	}
 	for level, tables := range v.levels {
 		for _, t := range tables {
-			r.addTableFile(level, t)
+			if _, ok := listed[t.fd.Num]; !ok {
+				r.addTableFile(level, t)
+			}
 		}
 	}
 }
